@@ -48,6 +48,7 @@ func (p *player) buildNode() *gomavlib.Node {
 		switch e.Kind {
 		case "custom":
 			p.ctls[i] = newCtl(p, i)
+			p.ctls[i].drain = e.Drain
 			n.Endpoints = append(n.Endpoints, gomavlib.EndpointCustom{ReadWriteCloser: p.ctls[i]})
 		case "tcp_server":
 			p.addrs[i] = freePort("tcp")
@@ -112,11 +113,12 @@ func (p *player) serialOpen(device string, baud int) (io.ReadWriteCloser, error)
 		return nil, fmt.Errorf("verif: serial open failed")
 	}
 	c := newCtl(p, ep)
+	p.mu.Lock()
 	if !first {
-		p.mu.Lock()
 		p.ctls[ep] = c
-		p.mu.Unlock()
 	}
+	p.serials = append(p.serials, c)
+	p.mu.Unlock()
 	return c, nil
 }
 
@@ -317,8 +319,13 @@ func (p *player) run() {
 	for _, s := range p.sc.Steps {
 		p.step(s)
 	}
-	// every scenario ends with Close (idempotent if the scenario already closed)
+	// every scenario ends with Close (a no-op if the scenario already called it)
 	p.doClose("main")
+	select {
+	case <-p.closeDone:
+	case <-time.After(10 * time.Second):
+		p.rec.Put(M{"e": "Timeout", "what": "close_return", "t": p.ms()})
+	}
 	// release writers
 	for _, ops := range p.writers {
 		close(ops)
@@ -595,6 +602,34 @@ func (p *player) final(baseline int, evClosed bool) {
 			l.Close()
 		}
 	}
+	// every connection the node accepted or dialled must have been released: the harness side sees its end
+	notReleased := 0
+	dl2 := time.Now().Add(2 * time.Second)
+	for {
+		notReleased = 0
+		p.mu.Lock()
+		for k, c := range p.peers {
+			// UDP has no connection to tear down: only TCP peers can see the node's side go away
+			if c != nil && !p.peerEnded[k] && c.LocalAddr().Network() == "tcp" {
+				notReleased++
+			}
+		}
+		p.mu.Unlock()
+		if notReleased == 0 || time.Now().After(dl2) {
+			break
+		}
+		time.Sleep(5 * time.Millisecond)
+	}
+	serialOpen := 0
+	p.mu.Lock()
+	for _, c := range p.serials {
+		c.mu.Lock()
+		if c.closes == 0 {
+			serialOpen++
+		}
+		c.mu.Unlock()
+	}
+	p.mu.Unlock()
 	p.rec.Put(M{"e": "Final", "goroutines_left": left, "stacks": stacks, "ports_rebound": rebound, "custom_close": closes,
-		"events_closed": evClosed, "t": p.ms()})
+		"events_closed": evClosed, "conns_not_released": notReleased, "serial_not_closed": serialOpen, "t": p.ms()})
 }
